@@ -189,4 +189,32 @@ def repoints : Option HeadInfo → List (HeadInfo × Fate) → List (Nat × Nat 
     | _, _ => repoints (some w) r
   | cw, _ :: r => repoints cw r
 
+/-! ### the matcher's scores behind the ranks
+
+  One entry of `matching_scores` is the result of `_compute_event_comparison_score`:
+  `Match.eventScore … = .pos k prio`, i.e. the number `prio · (num/den)^k` with `k` = number of unmentioned parameters,
+  `num/den` the fuzzy-match base of the source (Generated.C04: 9/10) and `prio = m / 2^e` the flow priority
+  (`none` = no scaling).  `mlt` compares two such numbers EXACTLY (integer cross-multiplication, no floats). -/
+
+structure MScore where
+  k : Nat
+  prio : Option (Int × Nat)
+deriving DecidableEq, Repr, Inhabited
+
+def MScore.pnum (s : MScore) : Int := match s.prio with | none => 1 | some (m, _) => m
+def MScore.pexp (s : MScore) : Nat := match s.prio with | none => 0 | some (_, e) => e
+
+/-- value a < value b, where value s = pnum / 2^pexp · (num/den)^k -/
+def mlt (num den : Nat) (a b : MScore) : Prop :=
+  a.pnum * ((num ^ a.k * den ^ b.k * 2 ^ b.pexp : Nat) : Int) < b.pnum * ((num ^ b.k * den ^ a.k * 2 ^ a.pexp : Nat) : Int)
+
+instance (num den : Nat) (a b : MScore) : Decidable (mlt num den a b) := by unfold mlt; infer_instance
+
+/-- three-way exact comparison (driver: validates the float order the harness ranks by) -/
+def mcmp (num den : Nat) (a b : MScore) : Int :=
+  if mlt num den a b then -1 else if mlt num den b a then 1 else 0
+
+/-- the perfect, unscaled match: 1.0 — the value `_resolve_action_conflicts` pads with -/
+def MScore.perfect : MScore := ⟨0, none⟩
+
 end NemoVerif.Conflict
